@@ -245,7 +245,7 @@ def auth_lines(mech, shape, user, secret, zid):
 
 SHAPES = ['initial', 'challenge', 'cancel', 'bad64-initial', 'bad64', 'empty-initial', 'empty', 'nonutf8-initial', 'nonutf8']
 # after-aborted-*: an earlier LOGIN exchange of the same session was given up after the user name (cancelled / bad base64)
-POSITIONS = ['before-ehlo', 'after-helo', 'normal', 'after-success', 'after-success-ehlo', 'in-transaction', 'after-aborted-cancel', 'after-aborted-bad64', 'after-aborted-plain']
+POSITIONS = ['before-ehlo', 'after-helo', 'after-refused-ehlo', 'normal', 'after-success', 'after-success-ehlo', 'in-transaction', 'after-aborted-cancel', 'after-aborted-bad64', 'after-aborted-plain']
 
 
 def auth_cases(tier):
@@ -297,7 +297,9 @@ def run_a(case):
         body.append(ev)
         verdicts.append(v)
 
-    if pos == 'after-helo':
+    if pos == 'after-refused-ehlo':
+        add(EHLO, ('EHLO', '550'))        # the application refuses the greeting: the session is not greeted
+    elif pos == 'after-helo':
         add(b'HELO c\r\n')               # a plain SMTP greeting: no extensions, so no AUTH either
     elif pos != 'before-ehlo':
         add(EHLO)
@@ -376,7 +378,7 @@ def check_a(case, res):
     success = '235' in all_codes
     plaintext = mech in ('PLAIN', 'LOGIN')
     must_refuse = None
-    if pos in ('before-ehlo', 'after-helo'):
+    if pos in ('before-ehlo', 'after-helo', 'after-refused-ehlo'):
         must_refuse = 'auth-before-ehlo'
     elif pos in ('after-success', 'after-success-ehlo'):
         must_refuse = 'auth-after-success'
